@@ -1288,7 +1288,14 @@ class UserActions(object):
           # But for normal user tables (with two-way references), we must still use the docaction,
           # otherwise we'd invoke two-way update logic, and the reverse column would try to update
           # rows that we just deleted.
-          self._do_doc_action(actions.BulkUpdateRecord(table_id, rows, columns))
+          ref_table_rec = self._docmodel.tables.lookupOne(tableId=table_id)
+          if ref_table_rec and ref_table_rec.summarySourceTable:
+            # A group-by column of a summary table: this is upkeep of the summary table, which the
+            # user did not ask for and may have no access to, like the rest of its maintenance.
+            with self.indirect_actions():
+              self._do_doc_action(actions.BulkUpdateRecord(table_id, rows, columns))
+          else:
+            self._do_doc_action(actions.BulkUpdateRecord(table_id, rows, columns))
 
   @useraction
   def RemoveRecord(self, table_id, row_id):
